@@ -74,6 +74,7 @@ find_match_for_callers = Contract(
     "_find_match(by contract)", f"{T}::TOTP._find_match",
     params=find_match.params,
     raises_iff={"MalformedTokenError": "malformed(token)", "InvalidTokenError": "not malformed(token) and " + NOMATCH},
+    requires=["expected is None"],  # the earliest-match guarantee only holds without the search hint
     ensures=[e[1] for e in find_match.ensures[:3]],
     specs=SPECS, globals=GLOBALS, returns="int",
 )
